@@ -57,11 +57,14 @@ PROPS = {
         'classes': {1: 'double-release', 2: 'released-while-application-holds-it', 3: 'content-changed-while-held',
                     4: 'written-after-release', 5: 'handed-to-application-after-release'},
         'trusted': ['hook message/pool (release / recycle / re-acquire notifications, poison helpers; add-only, build tag verif)',
-                    'harness/pooltrack.go: object numbering by pointer, digest of message content at hand-over and at the end of the hold'],
-        'assumptions': ['sync.Pool hands out only objects that were Put', 'the order of tracker events is the order in which the hooks took the tracker lock (a linearisation of the real events)'],
-        'level_text': 'PARTIAL. Coq theorems (Properties/C12.v): the ownership automaton accepts only traces that satisfy the property as stated (no double release, no recycling or change while the application holds a message, no use after release); the library paths as modelled (receive, receive-with-hijack, request with clone and retransmission temporaries) are accepted, and so is EVERY interleaving of accepted traces over disjoint objects. That the Go code follows no other path is established by running the monitor on complete lifecycle traces of real executions (sequential histories of C05/C06 and concurrent scenarios), not by proof.',
-        'level_note': 'Level other: theorem about the model of the paths + runtime monitoring of the real code through a verif-tagged tracker in the pool; reads after release are invisible to the tracker (only writes break the poison pattern).',
-        'explanation': 'What is proved: monitor soundness, rejection of the named violations, safety of the modelled paths and of all their interleavings (Pool/Proofs.v). What is only observed: the real lifecycle traces (release, recycle, re-acquire with poison check, application hold/unhold with content digest) of server-role histories, client-role histories and concurrent mixed scenarios are accepted by the monitor and never exceed the pool bound.',
+                    'hook tcp/client/export_verif.go (VerifSetProcessReceivedMessage: installs the harness wrapper of the receive path; Config.ProcessReceivedMessage is ignored by tcp/client)',
+                    'harness/pooltrack.go: object numbering by pointer, digest of message content at hand-over and at the end of the hold, pool filter per scenario',
+                    'harness/c12_net.go: in-memory byte stream + listener under the tcp server; both ends are fed one CSM announcing Block-Wise-Transfer (the library never announces it itself)'],
+        'assumptions': ['sync.Pool hands out only objects that were Put', 'the order of tracker events is the order in which the hooks took the tracker lock (a linearisation of the real events)',
+                        'counter model: every atomic access of Pool.ReleaseMessage / AcquireMessage is one step; sync.Pool may return nil or lose objects at any step'],
+        'level_text': 'PARTIAL. Coq theorems (Properties/C12.v, 23): the ownership automaton accepts only traces that satisfy the property as stated (no double release, no recycling or change while the application holds a message, no use after release); fifteen library paths as modelled (receive, receive-with-hijack, request with clone and retransmission temporaries, Client.Get/Post with the deferred release of the request, block-wise Do temporaries, SetMessage per block, cached received message handed to the caller, serving side of block-wise uploads and responses (Swap), observation notification inside the callback, AsyncPing request = pending entry, handler SetMessage vs Swap) are accepted for pairwise distinct objects; EVERY n-ary interleaving of any list of accepted traces over pairwise disjoint objects is accepted (C12_interleaving_safe_n), in particular any number of library paths run concurrently (C12_lib_paths_interleaved_safe); a release refused by a full pool keeps a trace accepted; C12_pool_bounded: in the thread-level model of Pool.ReleaseMessage (CAS loop) and AcquireMessage the number of pooled messages and the counter stay within [0, maxNumMessages] under any number of threads, programs and schedules. That the Go code follows no other path is established by running the monitor on complete lifecycle traces of real executions, not by proof.',
+        'level_note': 'Level other: theorems about the model of the paths, their interleavings and the pool counter + runtime monitoring of the real code through a verif-tagged tracker in the pool; reads after release are invisible to the tracker (only writes break the poison pattern; a read usually surfaces as a panic, reported as a correspondence mismatch).',
+        'explanation': 'What is proved: monitor soundness, rejection of the named violations, safety of the modelled paths and of all their n-ary interleavings, boundedness of the pool (Pool/Proofs.v, Pool/Paths.v, Pool/BoundedProofs.v). What is only observed: the real lifecycle traces (release, recycle, re-acquire with poison check, application hold/unhold with content digest, application release) are accepted by the monitor and never exceed the pool bound, on: server-role and client-role histories and concurrent mixed scenarios on one udp connection; the C13 exchange histories on a pair of real udp connections with the tracker on both (block-wise up/down incl. abandoned, observe + notifications + cancel, ping answered/lost/cancelled, one-way, duplicates/drops, limiter-queued-then-cancelled; separate pools or one small shared pool); a tcp client against the library tcp server (CSM, block-wise, observe with block-wise notifications, ping, handler SetMessage/Swap); the library udp server on a loopback socket with several dialled clients; sequential pool scripts compared step by step with the counter model and concurrent hammering of a small pool. A scenario that hangs or panics is reported as a mismatch with its descriptor.',
     },
 }
 
